@@ -325,19 +325,19 @@ class RequestWideSearchContext(object):
     def copy_arr_if_needed(self, arr):
         """Copy or return arr, depending on the search context.
 
-        In cases with group_policy=none where multiple groups request
-        amounts from the same resource class, we end up using the same
-        AllocationRequestResource more than once when consolidating. So we
-        need to make a copy so we don't overwrite the one used for a
-        different result. But as an optimization, since this copy is not
-        cheap, we don't do it unless it's necessary.
+        In cases where multiple groups request amounts from the same
+        resource class, we end up using the same AllocationRequestResource
+        more than once when consolidating. So we need to make a copy so we
+        don't overwrite the one used for a different result. This is not
+        limited to group_policy=none: with group_policy=isolate the
+        unsuffixed group may still land on the same provider as a suffixed
+        group. But as an optimization, since this copy is not cheap, we don't
+        do it unless it's necessary.
 
         :param arr: An AllocationRequestResource to be returned or copied and
                 returned.
         :return: arr or a copy thereof.
         """
-        if self.group_policy != 'none':
-            return arr
         if arr.resource_class in self.multi_group_rcs:
             return copy.copy(arr)
         return arr
